@@ -6,8 +6,8 @@
    ([spec_store]), [compatible], [filter_spec], the expected outputs ([spec_outs]) and the
    admissible histories ([history_ok]: >= 2 factors, well-formed keys, erase(id, pf) with the
    inserting key or a non-stored id, strictly increasing id lists for refine). *)
-From Coq Require Import List Arith Bool Sorted.
-From AIT Require Import C20.Model C20.Spec C20.Proofs C20.ProofsFaster.
+From Coq Require Import List Arith Bool Sorted Permutation.
+From AIT Require Import C20.Model C20.Spec C20.ProofsLists C20.ProofsApply C20.Proofs C20.ProofsFaster C20.ProofsFilterMap C20.ProofsReconstruct.
 Import ListNotations.
 
 (* --- meaning of the spec's boolean filter --- *)
@@ -99,6 +99,111 @@ Theorem FasterTrie_filter_exact : forall F ops f, ft_history_ok F ops ->
 Proof. exact FasterTrie_filter_exact_lemma. Qed.
 Print Assumptions FasterTrie_filter_exact.
 
+(* --- FasterTrie, round 2: along every admissible history every output is the spec's (id lists up to
+       order, and without repeated ids), size() = number of stored entries, filter has no repeated id --- *)
+Theorem FasterTrie_history : forall F ops, ft_history_ok F ops ->
+  exists t outs, ft_history F ops = Ok (t, outs) /\ Forall2 out_sim (spec_outs ops) outs /\
+    ft_size t = length (spec_store ops) /\
+    forall f, pf_okb F (query_of_factors f 0) = true ->
+      exists l, ft_filter t f = Ok l /\ NoDup l /\ Permutation (filter_spec (spec_store ops) (query_of_factors f 0)) l.
+Proof. exact FasterTrie_history_lemma. Qed.
+Print Assumptions FasterTrie_history.
+
+(* --- FasterTrie::reconstruct, for ANY outcome of its three std::shuffle calls (ord0 = order of the
+       factors, ordv = orders of the values, keysS = keys_ after the in-place bucket shuffles, bucket
+       by bucket a permutation of keys_), from any state that represents a store st:
+       every returned entry is stored and compatible with the query, any two returned entries are
+       compatible, the returned factors carry the query's and the entries' values, and the buckets
+       afterwards (plus the returned entries when remove = true) hold exactly the store. --- *)
+Theorem reconstruct_compatible : forall t c st q remove ord0 ordv keysS t' entries f',
+  FInv2 t (c, st) -> pf_okb (fF t) q = true -> shuffle_of (fkeys t) keysS ->
+  ft_reconstruct t q remove ord0 ordv keysS = Ok (t', entries, f') ->
+  (forall e, In e entries -> In e st /\ compatible q (snd e)) /\
+  (forall e1 e2, In e1 entries -> In e2 entries -> compatible (snd e1) (snd e2)) /\
+  length f' = length (fF t) /\
+  (forall k v, pf_get q k = Some v -> nth_error f' k = Some v) /\
+  (forall e k v, In e entries -> pf_get (snd e) k = Some v -> nth_error f' k = Some v) /\
+  fF t' = fF t /\
+  Permutation (flat (fkeys t') ++ (if remove then entries else [])) st.
+Proof. exact reconstruct_compatible_lemma. Qed.
+Print Assumptions reconstruct_compatible.
+
+(* remove = true: the returned entries are erased, none is returned twice, sizes add up *)
+Theorem reconstruct_removed : forall t c st q ord0 ordv keysS t' entries f',
+  FInv2 t (c, st) -> pf_okb (fF t) q = true -> shuffle_of (fkeys t) keysS ->
+  ft_reconstruct t q true ord0 ordv keysS = Ok (t', entries, f') ->
+  NoDup (map fst entries) /\
+  (forall e, In e entries -> ~ In (fst e) (map fst (flat (fkeys t')))) /\
+  ft_size t' + length entries = length st.
+Proof. exact reconstruct_removed_lemma. Qed.
+Print Assumptions reconstruct_removed.
+
+(* the representation invariant FInv2 used above is the one every admissible history establishes *)
+Theorem FasterTrie_history_inv : forall ops F t s, FInv2 t s -> ft_hist_okb (fF t) s ops = true -> F = fF t ->
+  exists t' outs, ft_run t ops = Ok (t', outs) /\ fF t' = F /\ FInv2 t' (fst (spec_run s ops)).
+Proof.
+  intros ops F t s H1 H2 ->. destruct (ft_run_sim2 ops t s H1 H2) as [t' [outs [E [HF [HI _]]]]]. eauto.
+Qed.
+Print Assumptions FasterTrie_history_inv.
+
+Theorem FasterTrie_new_inv : forall F, FInv2 (ft_new F) (0, []).
+Proof. exact ft_new_inv2. Qed.
+Print Assumptions FasterTrie_new_inv.
+
+(* --- FilterMap<T, Trie> / IndexMap: a FilterMap built by any sequence of emplace(key, item) refines the
+       abstract store "list of (key, item) in emplace order": every filter overload — PartialFactors,
+       Factors with offset, Factors; each in its non-const and its const version — returns exactly the
+       items whose key is compatible with the query, in emplace order; no item index is out of range;
+       size() is the number of items. --- *)
+Theorem FilterMap_refines : forall (A : Type) F (entries : list (pfactors * A)),
+  2 <= length F -> Forall (fun e => pf_okb F (fst e) = true) entries ->
+  exists m, fm_build F entries = Ok m /\ fm_size m = length entries /\
+    (forall q, pf_okb F q = true ->
+       fm_filterPf m q = Ok (fm_spec entries q) /\ fm_filterPf_const m q = Ok (fm_spec entries q)) /\
+    (forall f off, pf_okb F (query_of_factors f off) = true ->
+       fm_filterFO m f off = Ok (fm_spec entries (query_of_factors f off)) /\
+       fm_filterFO_const m f off = Ok (fm_spec entries (query_of_factors f off))) /\
+    (forall f, pf_okb F (query_of_factors f 0) = true ->
+       fm_filterF m f = Ok (fm_spec entries (query_of_factors f 0)) /\
+       fm_filterF_const m f = Ok (fm_spec entries (query_of_factors f 0))).
+Proof. exact FilterMap_refines_lemma. Qed.
+Print Assumptions FilterMap_refines.
+
+(* --- fuel-free statements for the two loops of applyFilters (the only model functions that recurse
+       on fuel; rc_bucket recurses on an iteration bound): the loops are the big-step relations
+       [loop_runs] / [drain_runs] generated by their bodies; on well-formed filters the relations are
+       total, their unique result is the sorted intersection, and every sufficient fuel computes it. --- *)
+Theorem applyFilters_loop_fuel_free : forall fs m0, 2 <= length fs ->
+  Forall fwf fs -> Forall (fun f => f_valid f = true) fs -> f_min (hd ([], []) fs) = Some m0 ->
+  exists m, loop_runs (fs, 1, 0, m0) m /\ StronglySorted lt m /\ (forall x, In x m <-> inall fs x) /\
+            forall fuel, apply_fuel fs <= fuel -> apply_loop fuel (fs, 1, 0, m0) = ADone m.
+Proof. exact loop_total_correct. Qed.
+Print Assumptions applyFilters_loop_fuel_free.
+
+Theorem loop_runs_deterministic : forall st m1 m2, loop_runs st m1 -> loop_runs st m2 -> m1 = m2.
+Proof. exact loop_runs_det. Qed.
+Print Assumptions loop_runs_deterministic.
+
+Theorem apply_loop_is_loop_runs : forall st m, (exists fuel, apply_loop fuel st = ADone m) <-> loop_runs st m.
+Proof.
+  intros st m. split.
+  - intros [fuel H]. eapply apply_loop_runs; eauto.
+  - intros H. destruct (runs_apply_loop st m H) as [fuel Hf]. exists fuel. apply Hf. apply le_n.
+Qed.
+Print Assumptions apply_loop_is_loop_runs.
+
+Theorem drain_fuel_free : forall f, fwf f ->
+  exists m, drain_runs f m /\ StronglySorted lt m /\ (forall x, In x m <-> In x (content f)) /\
+            forall fuel, f_size f < fuel -> drain fuel f = ADone m.
+Proof. exact drain_total_correct. Qed.
+Print Assumptions drain_fuel_free.
+
+Theorem rc_bucket_bound_free : forall F remove n m todo kept f acc done,
+  length todo <= n -> length todo <= m ->
+  rc_bucket n F remove todo kept f acc done = rc_bucket m F remove todo kept f acc done.
+Proof. exact rc_bucket_bound_irrelevant. Qed.
+Print Assumptions rc_bucket_bound_free.
+
 (* --- the hypotheses are satisfiable on non-trivial inputs --- *)
 Definition ex_hist : list op :=
   [OInsert ([0], [1]); OInsert ([1;2], [0;2]); OInsert ([], []); OInsert ([0;2], [1;0]);
@@ -125,3 +230,23 @@ Definition ex_fhist : list op :=
 Example ex_ft_history_ok : ft_history_ok [3;2;4] ex_fhist /\
   (exists t outs, ft_history [3;2;4] ex_fhist = Ok (t, outs) /\ ft_filter t [1;0;2] = Ok [1;3]).
 Proof. split; [vm_compute; reflexivity|]. eexists. eexists. split; vm_compute; reflexivity. Qed.
+
+(* a reconstruct call whose hypotheses hold: state after three inserts, buckets shuffled *)
+Example ex_reconstruct :
+  exists t outs, ft_history [3;2;4] [OInsert ([0], [1]); OInsert ([1;2], [0;2]); OInsert ([0;2], [1;0]); OInsert ([0;2], [1;2])] = Ok (t, outs) /\
+    shuffle_of (fkeys t) [[[]; [(3, ([0;2], [1;2])); (0, ([0], [1])); (2, ([0;2], [1;0]))]; []]; [[(1, ([1;2], [0;2]))]; []]; [[]; []; []; []]] /\
+    exists t', ft_reconstruct t ([1], [0]) true [1;0;2] [[1;0;2]; [0;1]; [2;0;3;1]]
+                 [[[]; [(3, ([0;2], [1;2])); (0, ([0], [1])); (2, ([0;2], [1;0]))]; []]; [[(1, ([1;2], [0;2]))]; []]; [[]; []; []; []]]
+               = Ok (t', [(1, ([1;2], [0;2])); (3, ([0;2], [1;2])); (0, ([0], [1]))], [1;0;2]).
+Proof.
+  eexists. eexists. split; [vm_compute; reflexivity|]. split.
+  - repeat constructor. apply perm_trans with (l' := [(0, ([0], [1])); (3, ([0; 2], [1; 2])); (2, ([0; 2], [1; 0]))]).
+    + apply perm_skip. apply perm_swap.
+    + apply perm_swap.
+  - eexists. vm_compute. reflexivity.
+Qed.
+
+Example ex_filtermap :
+  exists m, fm_build [2;3] [(([0], [1]), 10); (([1], [2]), 20); (([0;1], [0;2]), 30)] = Ok m /\
+            fm_filterFO_const m [2] 1 = Ok [10; 20; 30] /\ fm_filterPf m ([0], [1]) = Ok [10; 20].
+Proof. eexists. split; [vm_compute; reflexivity|]. split; vm_compute; reflexivity. Qed.
